@@ -2,7 +2,7 @@
 EXTENDS Formak
 cShapes == {[nS |-> a, nC |-> b, nK |-> c, sens |-> <<>>] : a \in 1..3, b \in 0..2, c \in 0..2}
 cSyms == SymPool
-cOps == {"add","sub","mul","div","neg","pow2","pow3","sin","cos","exp","tanh","atan","sqrt1","log1","tan","asinb","acosb","muldt","usat"}
+cOps == {"add","sub","mul","div","neg","pow2","pow3","sin","cos","exp","tanh","atan","sqrt1","log1","tan","asinb","acosb","muldt","usat","abs1"}
 cConsts == <<RI(2), RQ(1,2), RI(-1), RI(3)>>
 cVals == <<RI(1), RI(-2), RI(3), RI(-1), RI(2), RI(-3), RQ(1,2), RQ(-3,2), RQ(5,4)>>
 cDts == <<RQ(1,8), RQ(1,4), RQ(1,2), RI(1), RI(0), RQ(-1,4)>>
